@@ -215,6 +215,7 @@ class ToJsonTask(Task):
 
 class EncodedOut:
     """bytes returned by orjson.dumps: only .decode() is used."""
+    ALWAYS_TRUE = True        # a Python object of this kind is truthy (no __bool__ / __len__)
     def sym_method(self, ex, name):
         from pyvc.symex import BoundBuiltin
         if name == 'decode':
